@@ -536,8 +536,29 @@ fn build(d: &mut Dice) -> GenCase {
         enum_text.push_str(&format!("    {}{}{disc},\n", v.name, v.fields));
     }
     enum_text.push_str("}\n");
-    body.push_str(&derive_attrs);
-    body.push_str(&enum_text);
+    // the enum may be produced by a `macro_rules!` whose explicit discriminants arrive as `$d:expr` fragments
+    // (None-delimited groups in the derive's input: their grouping is not re-emitted by rustc for proc-macro output)
+    let explicit: Vec<String> = vars.iter().filter_map(|v| v.explicit.clone()).collect();
+    let via_macro = !explicit.is_empty() && d.chance(15);
+    if via_macro {
+        let params: Vec<String> = (0..explicit.len()).map(|k| format!("$d{k}:expr")).collect();
+        let mut m = format!("macro_rules! __mk {{ ({}) => {{\n{derive_attrs}pub enum E{gd}{where_clause} {{\n", params.join(", "));
+        let mut k = 0;
+        for v in &vars {
+            let disc = if v.explicit.is_some() {
+                k += 1;
+                format!(" = $d{}", k - 1)
+            } else {
+                String::new()
+            };
+            m.push_str(&format!("    {}{}{disc},\n", v.name, v.fields));
+        }
+        m.push_str(&format!("}}\n}} }}\n__mk!({});\n", explicit.join(", ")));
+        body.push_str(&m);
+    } else {
+        body.push_str(&derive_attrs);
+        body.push_str(&enum_text);
+    }
     let control = format!("pub type R = {ty};\n{}{repr_attr}{enum_text}", consts.iter().map(|(n, v)| format!("pub const {n}: {ty} = {v};\n")).collect::<String>());
     // twin: same discriminant expressions, fields stripped: castable whatever the enum looks like
     let twin_repr = if has_int { format!("#[repr({ty})]\n") } else { String::new() };
@@ -654,6 +675,9 @@ fn build(d: &mut Dice) -> GenCase {
 
     labels.push(format!("repr={}", if has_int { ty } else { "(none)" }));
     labels.push(repr_label);
+    if via_macro {
+        labels.push("discriminants_through_macro_fragments".into());
+    }
     labels.push(if exhaustive { "domain=every value (8/16 bit)".into() } else { "domain=discriminants+-1, extremes, seeded sample".into() });
     labels.push(if generic { "generic".into() } else { "non_generic".into() });
     if generic {
